@@ -21,13 +21,13 @@ PROP = dict(
         "thread_rng: ghost tape (unique identifier, origin timestamp, jitter are arbitrary); HashMap::insert on the snapshot publication map: no-op; ExtensionField::write_zeros: single write (c14_write_zeros_model)",
     ],
     harnesses=[
-        H(NH, "c13", "c13_stash_init", "a new stash is the empty queue", timeout=120),
-        H(NH, "c13", "c13_stash_step", "one store/get from any raw state preserves 'ring window = FIFO of the newest 8' (get = oldest, each position at most once, len/gap agree)", timeout=300),
-        H(NH, "c13", "c13_stash_seq4", "4 consecutive symbolic store/get operations from any raw state against a serial-number FIFO model", timeout=300),
+        H(NH, "c13", "c13_stash_init", "a new stash is the empty queue", timeout=600),
+        H(NH, "c13", "c13_stash_step", "one store/get from any raw state preserves 'ring window = FIFO of the newest 8' (get = oldest, each position at most once, len/gap agree)", timeout=600),
+        H(NH, "c13", "c13_stash_seq4", "4 consecutive symbolic store/get operations from any raw state against a serial-number FIFO model", timeout=600),
         H(NH, "c13", "c13_stash_seq6", "6 consecutive symbolic store/get operations", tier="thorough", timeout=900),
         H(NH, "c13", "c13_poll_timer_v4", "NTPv4 NTS handle_timer, all stash fills: cookie handed to the request builder = oldest (every byte), consumed from the stash, rest keeps order, "
-          "count = min(missing, fit), pending uid = the request's", timeout=300),
-        H(NH, "c13", "c13_poll_timer_v5", "same for NTPv5", timeout=300),
-        H(NH, "c13", "c13_poll_message_v4", "real nts_poll_message: fields = unique id (remembered), the cookie (every byte), count-1 placeholders of the cookie's length, all authenticated", timeout=300),
+          "count = min(missing, fit), pending uid = the request's", timeout=600),
+        H(NH, "c13", "c13_poll_timer_v5", "same for NTPv5", timeout=600),
+        H(NH, "c13", "c13_poll_message_v4", "real nts_poll_message: fields = unique id (remembered), the cookie (every byte), count-1 placeholders of the cookie's length, all authenticated", timeout=600),
     ],
 )
